@@ -456,11 +456,17 @@ fn render(rng: &mut Rng, f: &LFile, k: &Knobs) -> Vec<u8> {
         let open_at = if k.parens { Some(rng.below(all.len())) } else { None };
         let mut depth = 0;
         for (i, t) in all.iter().enumerate() {
-            if Some(i) == open_at {
-                out.push_str("( ");
+            if Some(i) == open_at && depth == 0 {
+                // a parenthesis is a token of its own whether or not white space surrounds it
+                out.push_str(if rng.bool() { "(" } else { "( " });
                 depth = 1;
             }
             out.push_str(t);
+            if Some(i + 1) == open_at && depth == 0 && i + 1 < all.len() && rng.chance(1, 3) {
+                // ... also glued to the token in front of it
+                out.push('(');
+                depth = 1;
+            }
             if i + 1 < all.len() {
                 if depth > 0 && rng.chance(1, 2) {
                     if k.comments && rng.bool() {
@@ -477,8 +483,10 @@ fn render(rng: &mut Rng, f: &LFile, k: &Knobs) -> Vec<u8> {
         if depth > 0 {
             if rng.bool() {
                 out.push_str(nl);
+                out.push_str(" )");
+            } else {
+                out.push_str(if rng.bool() { ")" } else { " )" });
             }
-            out.push_str(" )");
         }
         if k.comments && rng.bool() {
             out.push_str(if rng.bool() { " ; trailing comment ( \\" } else { ";trailing comment ( \\" });
